@@ -118,3 +118,93 @@ def unit_reactant_nonnegative(twin=False):
     r.add("stages.m_temp_taken_from_current_amount_at_step_start", DISCHARGED if "m_temp[j]=kinetics_comp_ptr->Get_m();" in t else FAILED, "syntactic", 0, "", kind="structural")
     r.assumptions += ["CVODE path (cvode_update_reactants) is not under this contract", "two text anchors in rk_kinetics"]
     return r
+
+
+def unit_reactions_driver(twin=False):
+    """Phreeqc::reactions, the batch-reaction step driver: the number of steps is the largest step count of the reactants in use (at least 1);
+    both step clocks start at zero; each step starts from the saved initial state unless INCREMENTAL_REACTIONS (then from the previous step's
+    result), asks the kinetics block for THIS step's time (Current_step(incremental, step)), mixes only where a fresh start is made, runs the
+    reactions on the scratch copy -2 with that time, and saves the result back for the next step (not after the last one)."""
+    q = "Phreeqc::reactions"
+    fn = A.find_function(MS, q)
+    r = U.new_unit("C12.reactions.step_driver", MS, q, fn)
+    getters = ("Get_reaction_in", "Get_reaction_ptr", "Get_reaction_steps", "Get_kinetics_in", "Get_kinetics_ptr", "Get_temperature_in", "Get_temperature_ptr", "Get_countTemps",
+               "Get_pressure_in", "Get_pressure_ptr", "Get_count", "Rxn_find", "Current_step", "set_use")
+    c = ctx(functional=getters)
+    f, ex, its, info = U.run_loop_isolated(MS, q, 0, ctx=c)
+    step = tm.sym("iter_reaction_step", "I") if "reaction_step" in info["names"] else None
+    n = 0
+    for s in live(its, ("run", "cont")):
+        n += 1
+        if n > 12:
+            break
+        evs = list(U.iter_events(s))
+        inc = tm.eq(fld0(ex, s, "incremental_reactions", "I"), tm.num(1, "I"))
+        s.pc = list(s.pc) + [tm.or_(inc, tm.eq(fld0(ex, s, "incremental_reactions", "I"), tm.num(0, "I")))]       # the switch is TRUE or FALSE (type invariant of the flag)
+        stp = fld0(ex, s, "reaction_step", "I")
+        names = [e.name.split("::")[-1] for e in evs]
+        rr = [e for e in evs if e.name.endswith("run_reactions")]
+        if len(rr) != 1:
+            r.add("step.reactions_run_once#%d" % n, FAILED, "trace", 0, repr(names)); continue
+        a = rr[0].args
+        r.add("step.runs_on_the_scratch_copy(-2)_with_full_step_fraction#%d" % n, DISCHARGED if tm.isnum(a[0]) and a[0].args[0] == -2 and tm.isnum(a[3]) and a[3].args[0] == 1 else FAILED, "trace", 0, repr(a)[:120])
+        cs = [e for e in evs if e.name.endswith("Current_step")]
+        kin_in = [e for e in evs if e.name.endswith("Get_kinetics_in")]
+        if cs:
+            okc = len(cs) == 1 and a[1] is cs[0].result and cs[0].args[1] is stp and B.z3_prove(list(s.pc), tm.eq(tm.to_bool(cs[0].args[0]), inc))[0] == "proved"
+            r.add("step.time_is_Current_step(incremental,this_step)#%d" % n, DISCHARGED if okc else FAILED, "trace", 0, repr(cs[0].args)[:120])
+            rf = [e for e in evs if e.name.endswith("Rxn_find")]
+            okf = len(rf) == 1 and cs[0].recv is rf[0].result and tm.isnum(rf[0].args[-1]) and rf[0].args[-1].args[0] == -2
+            r.add("step.kinetics_block_is_the_scratch_copy(-2)#%d" % n, DISCHARGED if okf else FAILED, "trace", 0, repr([e.args for e in rf])[:120])
+        else:
+            r.add("step.no_kinetics_no_time#%d" % n, DISCHARGED if tm.isnum(a[1]) and a[1].args[0] == 0 else FAILED, "trace", 0, repr(a[1])[:60])
+        fresh = tm.or_(tm.not_(inc), tm.eq(stp, tm.num(1, "I")))
+        for hy, fr in cases(list(s.pc), fresh if not twin else tm.not_(inc)):
+            okm = tm.isnum(a[2]) and a[2].args[0] == (1 if fr else 0)
+            r.add("step.%s#%d" % ("fresh_start_mixes" if fr else "continued_step_does_not_mix_again", n), DISCHARGED if okm else FAILED, "symex", 0, repr(a[2]))
+        restart = tm.and_(tm.lt(tm.num(1, "I"), stp), tm.not_(inc))
+        cu = [e for e in evs[:evs.index(rr[0])] if e.name.endswith("copy_use")]
+        for hy, rs in cases(list(s.pc), restart):
+            if rs:
+                r.add("step.later_non_incremental_step_restarts_from_the_saved_state#%d" % n, DISCHARGED if len(cu) == 1 and tm.isnum(cu[0].args[0]) and cu[0].args[0].args[0] == -2 else FAILED, "trace", 0, repr(names)[:120])
+            else:
+                r.add("step.first_or_incremental_step_continues#%d" % n, DISCHARGED if not cu else FAILED, "trace", 0, repr(names)[:120])
+        sv = [e for e in evs[evs.index(rr[0]):] if e.name.endswith("saver")]
+        cnt = local(info, s, "count_steps")
+        for hy, more in cases(list(s.pc), tm.lt(stp, cnt)):
+            r.add("step.%s#%d" % ("result_saved_for_the_next_step" if more else "last_step_not_saved_here", n), DISCHARGED if len(sv) == (1 if more else 0) else FAILED, "trace", 0, repr(names)[-80:])
+    r.add("reach.steps", DISCHARGED if n >= 4 else UNDECIDED, "symex", 0, str(n), kind="vacuity")
+    # before the loop: step count and clocks
+    fn2, ex2, fin, info2 = U.run_function(MS, q, modes={0: "skip"}, ctx=ctx(functional=getters))
+    m = 0
+    for s in live(fin, ("ret", "run")):
+        if not any(e.name.endswith("copy_use") for e in s.events):
+            continue                                   # set_use() == FALSE: nothing to do
+        m += 1
+        if m > 16:
+            break
+        cnt = s.locals.get(info2["names"]["count_steps"])
+        E = lambda nm: [e for e in s.events if e.name.endswith(nm)]
+        def part(inn, ptr, cntname):
+            a, b, c_ = E(inn), E(ptr), E(cntname)
+            if not a:
+                return None
+            use_it = tm.eq(a[0].result, tm.num(1, "I"))
+            if b:
+                use_it = tm.and_(use_it, tm.not_(tm.eq(b[0].result, tm.NULL)))
+            return use_it, (c_[0].result if c_ else None)
+        parts = [part("Get_reaction_in", "Get_reaction_ptr", "Get_reaction_steps"), part("Get_temperature_in", "Get_temperature_ptr", "Get_countTemps"), part("Get_pressure_in", "Get_pressure_ptr", "Get_count")]
+        hy = list(s.pc)
+        U.discharge_valid(r, "count.at_least_one_step#%d" % m, hy, tm.le(tm.num(1, "I"), cnt))
+        for k_, p_ in enumerate(parts):
+            if p_ is None or p_[1] is None:
+                continue
+            if B.z3_prove(hy, p_[0])[0] == "proved":
+                U.discharge_valid(r, "count.not_below_the_steps_of_reactant_%d#%d" % (k_, m), hy, tm.le(p_[1], cnt))
+        U.discharge_eq_real(r, "clock.start_of_step_clock==0#%d" % m, hy, fld(ex2, s, "rate_sim_time_start", "R"), tm.num(0))
+        U.discharge_eq_real(r, "clock.elapsed==0#%d" % m, hy, fld(ex2, s, "rate_sim_time", "R"), tm.num(0))
+        U.discharge_valid(r, "count.published(count_total_steps)#%d" % m, hy, tm.eq(fld(ex2, s, "count_total_steps", "I"), cnt))
+    r.add("reach.prologue", DISCHARGED if m >= 4 else UNDECIDED, "symex", 0, str(m), kind="vacuity")
+    r.assumptions += ["the getters of `use` and of the reactant blocks are pure", "kinetics step count (Get_kinetics_ptr()->Get_reaction_steps()) shares the getter name with REACTION's and is covered by the same bound",
+                      "run_reactions / saver / copy_use / set_initial_moles are opaque calls here", "the step clock updates after run_reactions are C12.step_drivers.clock_advances..."]
+    return r
